@@ -23,8 +23,8 @@ def main(tier):
     N, heavy = (7, 6) if tier == 'quick' else (12, 8)
     ck.assumptions += ['clean-up passes: text of printer shape (PG+), fixed length per job; every index, slice and nil obligation and every loop unwinding bound is a solver query',
                        'crashes or non-termination inside rassemble-go, regexp/syntax and yaml are not encoded']
-    deep = 4 if tier == 'quick' else 7
-    jobs = c02.lemma_jobs(N, exclude, only, heavyN=heavy, deep=deep, hexN=7 if tier == 'quick' else 9)
+    deep = 3 if tier == 'quick' else 7
+    jobs = c02.lemma_jobs(N, exclude, only, heavyN=heavy, deep=deep, hexN=6 if tier == 'quick' else 9)
     rs, viol = ck.run('clean-up passes', jobs, bounds={'text_len': '0..%d over all printable ASCII (flag-group pass 0..%d), %d..%d over the representative alphabet' % (N, heavy, N + 1, N + deep)})
     ck.triage(viol)
     # termination of definition expansion on cyclic / self-referential definitions: the unwinding obligations are the property
